@@ -713,6 +713,7 @@ type vfHost struct {
 	handlers []vfHandler
 	connects []peer.ID // host.Connect attempts (PX oracle)
 	inbound  int
+	slowDial bool // Connect hangs until its context ends (hmu)
 }
 
 func newVfHost(w *vfWorld, name string) *vfHost {
@@ -789,7 +790,13 @@ func (h *vfHost) NewStream(ctx context.Context, p peer.ID, pids ...protocol.ID) 
 func (h *vfHost) Connect(ctx context.Context, pi peer.AddrInfo) error {
 	h.hmu.Lock()
 	h.connects = append(h.connects, pi.ID)
+	slow := h.slowDial
 	h.hmu.Unlock()
+	if slow {
+		// a black hole: the dial hangs until the caller's deadline
+		<-ctx.Done()
+		return ctx.Err()
+	}
 	return errors.New("vf: dialing is not modelled")
 }
 func (h *vfHost) identified(p peer.ID, protos []protocol.ID) {
